@@ -50,7 +50,7 @@ CHECKS = {
     ),
     "C03": dict(
         technique="explicit-state BFS over interface call histories on the real code (closure for eager calls, depth-bounded for jit/vmap modes) with fresh-model and differential oracles",
-        text="Per (program in {hierarchy with prediction nodes, GLM, transformed, transformed with a bijector class whose argument is a model variable, node/variable name clash, optional None-valued input, distreg, user log-prob node}, user-model auto_update on/off, LieselInterface; GooseModel for one config) histories of update_state calls on ONE interface instance are explored: part A eager calls with 4 positions x 3 states to closure of the canonical state (digest of the private copy's observable fields + last result + jit-cache signature); part B modes {eager, jit, vmap batch 3} with 2 positions x 3 states to depth 2 (thorough 3). Every transition is replayed on a fresh interface and checked against a fresh oracle model, a bit-exact differential table (history independence), deep snapshots of input state / position / user's model and of ALL states returned earlier in the history (bit-identical, no shared dict objects), extract_position round trips with both key kinds, and log_prob against the model and the scipy reference. Dict / NamedTuple / plain dataclass / dataclass with __post_init__ pre-processing and an init=False field: all key subsets x 2 values x chains of 2 calls (eager; jit and vmap for dict and NamedTuple); dataclass with nested-dataclass fields (identity put/get).",
+        text="Per (program in {hierarchy with prediction nodes, GLM, transformed, transformed with a bijector class whose argument is a model variable, node/variable name clash, optional None-valued input, distreg, user log-prob node}, user-model auto_update on/off, LieselInterface; GooseModel for one config) histories of update_state calls on ONE interface instance are explored: part A eager calls with 4 positions x 3 states to closure of the canonical state (digest of the private copy's observable fields + last result + jit-cache signature); part B modes {eager, jit, vmap batch 3} with 2 positions x 3 states to depth 2 (thorough 3). Every transition is replayed on a fresh interface and checked against a fresh oracle model, a bit-exact differential table (history independence), deep snapshots of input state / position / user's model and of ALL states returned earlier in the history (bit-identical, no shared dict objects), extract_position round trips with both key kinds, and log_prob against the model and the scipy reference. Dict / NamedTuple / plain dataclass / dataclass with __post_init__ pre-processing and an init=False field: all key subsets x 2 values x chains of 2 calls (eager; jit and vmap for dict and NamedTuple); dataclass with nested-dataclass fields (identity put/get). Added after round 3: a registered dataclass state with a non-field class attribute (put/get and log-prob for every key subset, eager / jit / vmap).",
         note="Input states are up to date and complete (documented precondition); ambiguous keys resolve node-first; jax.jit/vmap semantics and TFP densities trusted; merging histories relies on the canonical state covering every mutable field of the private copy.",
         ref="3/C03",
     ),
@@ -80,25 +80,25 @@ CHECKS = {
     ),
     "C13": dict(
         technique="scripted-PRNG seam capturing Gamma shape and categorical logits on the real kernels over full parameter lattices, with closed-form and model-joint ratio oracles",
-        text="tau2_gibbs_kernel: full product of 5 penalties (7 thorough; rank 0 to full, dim 2-5) plus dim-20 scaled penalties whose matrix_rank differs from the number of float32 eigenvalues above 1e-6, x a x b x 6 coefficient vectors incl. null-space vectors; the kernel is built ONCE per (penalty, a); the b lattice, a second a, a changed rank, a re-weighted same-rank penalty and a rank-one penalty (with rank) reach kernel and model only through the model state; the real transition runs with the gamma seam answering {1, 1/2, 2} and recording the shape parameter. Oracles: closed form a + rk(K)/2 and b + beta'K beta/2, and a ratio test log joint_model(tau2) - log IG(tau2; a_g, b_g) constant over 6 tau2 values on the real model's joint. finite_discrete_gibbs_kernel: 32 specs (39 thorough) covering FiniteDiscrete, Bernoulli and explicit outcomes, sizes 2-4, likelihood none / Normal mean / mixture indicator / value of a weak variable with a distribution / diamond of cached nodes sigma = f(z), mean = g(sigma, z) in both input orders (Calc or weak Var, keyword or positional distribution arguments), with 3 and 150+ observations (|log joint| up to ~5000), crossed with every ordered pair of states back-to-back and every forced outcome; softmax(logits) equals the exact normalised joint.",
+        text="tau2_gibbs_kernel: full product of 5 penalties (7 thorough; rank 0 to full, dim 2-5) plus dim-20 scaled penalties whose matrix_rank differs from the number of float32 eigenvalues above 1e-6, x a x b x 6 coefficient vectors incl. null-space vectors; the kernel is built ONCE per (penalty, a); the b lattice, a second a, a changed rank, a re-weighted same-rank penalty and a rank-one penalty (with rank) reach kernel and model only through the model state; the real transition runs with the gamma seam answering {1, 1/2, 2} and recording the shape parameter. Oracles: closed form a + rk(K)/2 and b + beta'K beta/2, and a ratio test log joint_model(tau2) - log IG(tau2; a_g, b_g) constant over 6 tau2 values on the real model's joint. finite_discrete_gibbs_kernel: 32 specs (39 thorough) covering FiniteDiscrete, Bernoulli and explicit outcomes, sizes 2-4, likelihood none / Normal mean / mixture indicator / value of a weak variable with a distribution / diamond of cached nodes sigma = f(z), mean = g(sigma, z) in both input orders (Calc or weak Var, keyword or positional distribution arguments), with 3 and 150+ observations (|log joint| up to ~5000), crossed with every ordered pair of states back-to-back and every forced outcome; softmax(logits) equals the exact normalised joint. Added after round 3: integer-valued current value with fractional outcomes, tau2 settings at extreme scales (b = 1e-9, coefficients 1e4), purity of kernel construction and states taken from the user's own model after later assignments.",
         note="Lattices only; jax.random.gamma / categorical trusted as samplers (what is checked is the parameters liesel hands them and the use of the answer); tolerances 1e-5 relative (parameters), ratio test 0.005 (dim <= 5) / 0.02 (dim 20) + 5e-7*|log joint| (bug effect >= 3.4), probabilities 1e-5 + 2e-6*max|logit|; exceptions thrown by liesel on valid input count as violations.",
         ref="3/C13",
     ),
     "C14": dict(
         technique="exhaustive configuration x entry-point x value-lattice enumeration on built models, checked against a change-of-variables reference (scipy float64 + closed-form bijectors)",
-        text="Full product of 13 distribution families x bijector option (instance, class with args, default) x entry point (Var.transform(instance), Var.transform(cls, args), Var.transform(None), auto_transform at build, deprecated GraphBuilder.transform in the same forms) x parameter kind (constants; distribution parameters as variables incl. a hyper-prior; bijector arguments as variables; both) x build style (GraphBuilder.add(x), add(sink only), lsl.Model([x]), lsl.Model([sink])) x shape, per_obs and parameter flag, plus chained (double) transforms of the new variable (first step through Var.transform or the deprecated method, second step through either); every variable handed to the distribution or bijector must be in the built model. Each case is a real model walked over 7 (thorough 13) unconstrained values by assignment, then every parameter and argument variable is re-assigned. Oracle: original value equals b(t) and is unchanged by the transformation, new log_prob = log p(b(t)) + log|b'(t)|, Model.log_prob / log_prior / log_lik, parameter flag moved, original keeps no distribution, per_obs carried over.",
+        text="Full product of 13 distribution families x bijector option (instance, class with args, default) x entry point (Var.transform(instance), Var.transform(cls, args), Var.transform(None), auto_transform at build, deprecated GraphBuilder.transform in the same forms) x parameter kind (constants; distribution parameters as variables incl. a hyper-prior; bijector arguments as variables; both) x build style (GraphBuilder.add(x), add(sink only), lsl.Model([x]), lsl.Model([sink])) x shape, per_obs and parameter flag, plus chained (double) transforms of the new variable (first step through Var.transform or the deprecated method, second step through either); every variable handed to the distribution or bijector must be in the built model. Each case is a real model walked over 7 (thorough 13) unconstrained values by assignment, then every parameter and argument variable is re-assigned. Oracle: original value equals b(t) and is unchanged by the transformation, new log_prob = log p(b(t)) + log|b'(t)|, Model.log_prob / log_prior / log_lik, parameter flag moved, original keeps no distribution, per_obs carried over. Added after round 3: after every case the model is taken apart with pop_nodes_and_vars and rebuilt from the same variables and the oracle runs again.",
         note="TFP's densities and bijectors trusted as such but every number is compared with an independent float64 scipy or closed-form reference; values to 2e-5 relative, log-densities to 2e-4*(1+|log p|+|log b'|); lattice points only.",
         ref="3/C14",
     ),
     "C18": dict(
         technique="exhaustive input-lattice enumeration with scripted-PRNG reconstruction of the sampler's linear map; float64 closed forms as oracle",
-        text="MVN degenerate: d 1-4 (thorough 6), plus a high-dimensional family d in {30, 60} whose pseudo-determinant leaves the float32 range, x 6 integer penalties and their stacked batch x variances x loc x batch layouts (incl. mixed broadcasting) x 13 constructor variants x lattice {-1,0,2}^d plus null-space shifts; oracles: range-space density, rank/log-pdet, null invariance, constructor agreement; sampler map rebuilt from scripted normals e_i: S S' = pinv(P), N'S = 0, sample shapes (), (2,), (2,2). AlgebraicSigmoid on 41-point x and y lattices in float32 and float64 against closed forms and jax.grad. Copula: 8 dependences and None x 7x7 lattice x validate_args x batches, closed form, marginals by 198-node quadrature.",
+        text="MVN degenerate: d 1-4 (thorough 6), plus a high-dimensional family d in {30, 60} whose pseudo-determinant leaves the float32 range, x 6 integer penalties and their stacked batch x variances x loc x batch layouts (incl. mixed broadcasting) x 13 constructor variants x lattice {-1,0,2}^d plus null-space shifts; oracles: range-space density, rank/log-pdet, null invariance, constructor agreement; sampler map rebuilt from scripted normals e_i: S S' = pinv(P), N'S = 0, sample shapes (), (2,), (2,2). AlgebraicSigmoid on 41-point x and y lattices in float32 and float64 against closed forms and jax.grad. Copula: 8 dependences and None x 7x7 lattice x validate_args x batches, closed form, marginals by 198-node quadrature. Added after round 3: far-tail lattice (|x| up to 1e6) for the AlgebraicSigmoid Jacobian; penalties scaled by powers of two (2^-20..2^13) with a supplied rank, three constructor variants, eager and jit.",
         note="Trusted: TFP base classes, MultivariateNormalTriL, NormalCDF; float32 against float64 closed forms with measured margin >= 10x; lattice points only. One open finding (absolute eigenvalue tolerance 1e-6 vs float32 noise) is reported as KNOWN-FINDING; its signature is emitted only when liesel's own eigenvalue of a true null direction exceeds tol.",
         ref="3/C18",
     ),
     "C20": dict(
         technique="exhaustive enumeration of loss histories on the real Stopper plus stateless answer enumeration of optim_flat under a scripted optimiser and gradient-decoded batch membership, against documented-pseudo-code reference models",
-        text="Stopper: every loss history in letters^L (4 letters, L=7 quick; 5 letters, L=8 thorough; tolerance-critical spacings), every index, patience 1-3, 4 (atol, rtol) pairs and 2 max_iter values, jitted and eager, against the docstring pseudo-code. optim_flat: every execution under a scripted optimiser (3-letter loss alphabet; max_iter 6 quick / 7 thorough, all early-stop prefixes; full lattice restore x prune x save_position_history x validation model none/same-n/different-n) against a reference simulation (stop iteration, iteration_best in the final window, restored position, history lengths / NaN padding / values, state consistent with position). Mini-batches: n in {4,5,7} x batch size {2,3} x 5 seeds (two of them with a separate validation model with different data and n: batches must be cut from the training data), K = 20/30 iterations, membership decoded exactly from gradients.",
+        text="Stopper: every loss history in letters^L (4 letters, L=7 quick; 5 letters, L=8 thorough; tolerance-critical spacings), every index, patience 1-3, 4 (atol, rtol) pairs and 2 max_iter values, jitted and eager, against the docstring pseudo-code. optim_flat: every execution under a scripted optimiser (3-letter loss alphabet; max_iter 6 quick / 7 thorough, all early-stop prefixes; full lattice restore x prune x save_position_history x validation model none/same-n/different-n) against a reference simulation (stop iteration, iteration_best in the final window, restored position, history lengths / NaN padding / values, state consistent with position). Mini-batches: n in {4,5,7} x batch size {2,3} x 5 seeds (two of them with a separate validation model with different data and n: batches must be cut from the training data), K = 20/30 iterations, membership decoded exactly from gradients. The validation model is a separately built object whose own parameter value differs from the training start value.",
         note="Window-completeness boundary i in {p-1,p} is a don't-care; ties admit any minimiser; patience <= max_iter only; tqdm replaced by a disabled bar; trusted: jax.random.permutation, optax.apply_updates, lax loops. The open finding minibatch:same-partition-every-iteration (carried key never advanced; a fix would break a pinned golden test) reproduces on /repo and is printed as KNOWN-FINDING.",
         ref="3/C20",
     ),
@@ -116,13 +116,13 @@ CHECKS = {
     ),
     "C10": dict(
         technique="exhaustive configuration-lattice enumeration on the real engine with key-recording tracer kernels; differential bit-equality of complete runs plus a key-distinctness / split-lineage oracle",
-        text="Every configuration of a bounded lattice - seed form (constructor int / PRNGKey; set_engine_seed int / PRNGKey / per-chain key array) x engine seed x chains <=3 (thorough 4) x (kernels, generators) x epoch schedules <=2 (thorough 3) epochs x every chunk divisor x jitter {none, element-wise, non-element-wise sum, key-using; every jittered position key has its own, different function} x {replicated, per-chain} initial state - is built and run on the real EngineBuilder/Engine 2-3 + #chains times, with all stored leaves compared bit for bit (same seed twice, int vs PRNGKey, one chain perturbed); tracer kernels, generators and jitter functions record the raw key of every call (init, start, transition, end, tune, end-warmup, generate, jitter), and the set must be duplicate-free and free of split-lineage relations (also w.r.t. the engine's carry key and the builder's keys); the first stored sample must equal jitter(initial value) exactly. Reproducibility is additionally checked ACROSS interpreters: 2 configurations with >= 2 key-jittered position keys are re-run in up to 3 fresh processes whose string-hash seeds give different set iteration orders, and digests of all stored leaves are compared.",
+        text="Every configuration of a bounded lattice - seed form (constructor int / PRNGKey; set_engine_seed int / PRNGKey / per-chain key array) x engine seed x chains <=3 (thorough 4) x (kernels, generators) x epoch schedules <=2 (thorough 3) epochs x every chunk divisor x jitter {none, element-wise, non-element-wise sum, key-using; every jittered position key has its own, different function} x {replicated, per-chain} initial state - is built and run on the real EngineBuilder/Engine 2-3 + #chains times, with all stored leaves compared bit for bit (same seed twice, int vs PRNGKey, one chain perturbed); tracer kernels, generators and jitter functions record the raw key of every call (init, start, transition, end, tune, end-warmup, generate, jitter), and the set must be duplicate-free and free of split-lineage relations (also w.r.t. the engine's carry key and the builder's keys); the first stored sample must equal jitter(initial value) exactly. Reproducibility is additionally checked ACROSS interpreters: 2 configurations with >= 2 key-jittered position keys are re-run in up to 3 fresh processes whose string-hash seeds give different set iteration orders, and digests of all stored leaves are compared. Added after round 3: every repeated configuration is also run on the second engine built from the same builder; a bounded-support model in which only the perturbed chain leaves the support after jitter.",
         note="Legacy uint32[2] keys; lineage searched for split fan-out <=4, depth <=2; the configuration product is complete on reference schedules and strided (rotating offset) across the schedule lattice; RW/HMC/NUTS/IWLS used for bit-equality, independence and initial values only; an exception raised in a liesel frame on a valid configuration counts as a violation.",
         ref="3/C10",
     ),
     "C19": dict(
         technique="exhaustive enumeration of error-code arrays on the real log -> summary -> data-frame pipeline with a counting reference; one-chain-per-pattern engine sweep; exact round-trip comparison for ArviZ and pickle",
-        text="Pipeline: for every layout (chains <=2 [thorough 4] x warm-up {0,1,2} x posterior {0,1,2} transitions in every epoch split x chunking x kernel set incl. two kernels of the same class with overlapping codes and a kernel whose error book documents a negative code) EVERY assignment of error codes to every (kernel, chain, transition) cell (1.1e4 quick / 8.5e4 thorough) is pushed through the real SamplingResults.get_error_log -> _make_error_summary -> Summary.error_df and compared with a counting reference per kernel, code, message, chain and phase. Engine: a scripted-error kernel realises all 3^6 (3^8 thorough) single-chain patterns in one run (one chain per pattern), plus thinned, two-kernel and no-warm-up runs; full Summary, sample_info, ArviZ conversion (with/without warm-up) and the pickle round trip are compared exactly with what is stored.",
+        text="Pipeline: for every layout (chains <=2 [thorough 4] x warm-up {0,1,2} x posterior {0,1,2} transitions in every epoch split x chunking x kernel set incl. two kernels of the same class with overlapping codes and a kernel whose error book documents a negative code) EVERY assignment of error codes to every (kernel, chain, transition) cell (1.1e4 quick / 8.5e4 thorough) is pushed through the real SamplingResults.get_error_log -> _make_error_summary -> Summary.error_df and compared with a counting reference per kernel, code, message, chain and phase. Engine: a scripted-error kernel realises all 3^6 (3^8 thorough) single-chain patterns in one run (one chain per pattern), plus thinned, two-kernel and no-warm-up runs; full Summary, sample_info, ArviZ conversion (with/without warm-up) and the pickle round trip are compared exactly with what is stored. Added after round 3: minimize() of every built-in transition-info class over all documented codes; chain level of error_df against its argument; every word <=4 (thorough 5) over {save A, save B, save C, load} on one path.",
         note="Pipeline-level SamplingResults are filled by hand the way the engine fills them; error_df is evaluated on a Summary shell; the 'relative' column is not checked; warmup_size_per_chain is compared with stored warm-up transitions; the engine oracle counts from the kernel's table, not from stored infos; any exception raised by liesel on a valid input is a violation; one kernel documents an error code it never returns, so cross-kernel leakage shows as a wrong entry.",
         ref="3/C19",
     ),
